@@ -20,8 +20,8 @@ for d in "$@"; do
     git -C /repo worktree remove --force $wt
     rm -f $VH/.work/bin/harness-_tmp_mut_bn$k.test $VH/.work/alt-_tmp_mut_bn$k.*
   ) > /tmp/mut/benign_$k.out 2>&1 &
-  # at most 3 changes in flight
-  while [ $(jobs -r | wc -l) -ge 3 ]; do sleep 5; done
+  # at most ${MAXJOBS:-3} changes in flight
+  while [ $(jobs -r | wc -l) -ge ${MAXJOBS:-3} ]; do sleep 5; done
 done
 wait
 cat /tmp/mut/benign_*.out
